@@ -13,7 +13,7 @@ import z3
 
 from . import core
 from .core import (CTX, SENTINEL, If, SymBool, SymInt, Unsupported, lift, mkbool, mkint)
-from .frac import SymFrac
+from .frac import SymFrac, SymFloat
 from .sbytes import SymBytes, SymView, from_bytes, items_of
 
 _ri = builtins.isinstance
@@ -64,7 +64,7 @@ class sx_int(metaclass=_TypeShim):
             return x
         if _ri(x, SymBool):
             return lift(x)
-        if _ri(x, SymFrac):
+        if _ri(x, (SymFrac, SymFloat)):
             return x.__trunc__()
         if _has_sentinel(x):
             raise Unsupported("int() of a string rendered from a symbolic value")
@@ -552,13 +552,13 @@ class MathModel:
 
     @staticmethod
     def ceil(x):
-        if _ri(x, (SymFrac, SymInt)):
+        if _ri(x, (SymFrac, SymInt, SymFloat)):
             return x.__ceil__()
         return _math.ceil(x)
 
     @staticmethod
     def floor(x):
-        if _ri(x, (SymFrac, SymInt)):
+        if _ri(x, (SymFrac, SymInt, SymFloat)):
             return x.__floor__()
         return _math.floor(x)
 
